@@ -336,8 +336,20 @@ def check_faults(ctx: Ctx, inp) -> None:
                         ctx.disagree("failure-missing-from-the-report:" + ("joined-an-already-reported-failure" if len(checks) > 1 and check != checks[0] else "first"), f"GET {path}: the API violated {check} ({TITLES[check]!r}) but the report section shows only: {_titles_in(block)}", input=inp)
                 urls = re.findall(r"curl -X GET [^\n]*?(http://127\.0\.0\.1:\d+/\S*)", block)
                 received = {server.url + r.target for r in log}
+
+                def shape(u):  # path + parameter names: what is left to compare when values are redacted
+                    from urllib.parse import parse_qsl, urlsplit
+
+                    parts = urlsplit(u)
+                    return parts.path, sorted(k for k, _ in parse_qsl(parts.query, keep_blank_values=True))
+
                 for url in urls[:3]:
-                    if url.strip("'\"") not in received:
+                    url = url.strip("'\"")
+                    if "%5BFiltered%5D" in url or "[Filtered]" in url:
+                        # output sanitisation (on by default) redacts values of credential-like names, also generated ones
+                        if shape(url) not in {shape(u) for u in received}:
+                            ctx.disagree("reproduction-command-names-a-request-never-sent", f"GET {path}: no received request has the path and parameter names of {url}", input=inp)
+                    elif url not in received:
                         ctx.disagree("reproduction-command-names-a-request-never-sent", f"GET {path}: {url} was not received by the API", input=inp)
     # (ii) faults
     if fault_fired and fault == "before_init_operation":
